@@ -964,6 +964,25 @@ def site_key(site, desc=None):
             "enum": "unescaped:enum", "required": "unescaped:required", "default-repr": "unescaped:default-repr"}[site]
 
 
+_GEN_MOVED = None
+
+
+def generator_moved():
+    """did the source of the schema -> code generator move from the pinned tree (extract/srcpins.py)?  On the pinned
+    tree the model's text must equal the real text character by character (anything else is a model error); where the
+    generator was rewritten, a different spelling of the same module is not an alarm by itself: the case is then decided
+    by the recogniser on the REAL text vs CPython, the dumped classes, the docstring and the round trip."""
+    global _GEN_MOVED
+    if _GEN_MOVED is None:
+        try:
+            from extract import srcpins
+            ch = srcpins.changed(os.environ.get("VERIF_REPO", "/repo"))
+            _GEN_MOVED = any(k.startswith("typedpy/json_schema/json_schema_mapping.py::") for k in ch)
+        except Exception:
+            _GEN_MOVED = False
+    return _GEN_MOVED
+
+
 def first_diff(a, b):
     k = 0
     while k < min(len(a), len(b)) and a[k] == b[k]:
@@ -1006,10 +1025,12 @@ def judge(case, impl, model):
         msgs.append("generator failed on the canonical schema: " + impl["canon_err"])
     if model.get("text") is not None and "code_canon" in impl:
         if model["text"] != impl["code_canon"]:
-            msgs.append("emitted text differs from the model: real " + first_diff(impl["code_canon"], model["text"]))
+            if not generator_moved():
+                msgs.append("emitted text differs from the model: real " + first_diff(impl["code_canon"], model["text"]))
         elif impl.get("canon_same") and impl.get("code") is not None and impl["code"] != model["text"]:
-            msgs.append("emitted text (through the API under test) differs from the model: real "
-                        + first_diff(impl["code"], model["text"]))
+            if not generator_moved():
+                msgs.append("emitted text (through the API under test) differs from the model: real "
+                            + first_diff(impl["code"], model["text"]))
     # -- the compiled model agrees with the kernel-checked theorem emitted_module_accepted_partial
     if (model.get("srcOk") and model.get("oracleOk") and model.get("nestOk")
             and model.get("text") is not None and (model.get("recog") != "accept" or not model.get("clean"))):
@@ -1160,6 +1181,8 @@ def tags(case, impl, model):
         o = model["out"]
         out.append("fragment:" + ("in" if o.get("inFragment") else "out"))
         out.append("recog-model:" + str(o.get("recog")))
+        if o.get("text") is not None and "code_canon" in impl:
+            out.append("text:" + ("equal" if o["text"] == impl["code_canon"] else "differs"))
         out.append("recog-real:" + str(o.get("recogReal")))
         for v, ok in zip(o.get("mutantVerdicts", []), impl.get("mutant_ok", [])):
             out.append(f"mutant:{v}/cpython-{'ok' if ok else 'fails'}")
